@@ -24,6 +24,10 @@ pub struct Swarm {
     pub crlf: Vec<bool>,
     pub max_events: usize,
     pub rename_loops: bool,
+    /// a second, disjoint workspace folder `fb/` with its own program
+    pub second_folder: bool,
+    /// modules vanish from / come back to the disk behind the server's back
+    pub external: bool,
 }
 
 pub fn swarm(rng: &mut Rng) -> Swarm {
@@ -40,6 +44,8 @@ pub fn swarm(rng: &mut Rng) -> Swarm {
         crlf: (0..8).map(|_| rng.chance(1, 3)).collect(),
         max_events: rng.range(5, 60),
         rename_loops: rng.chance(1, 2),
+        second_folder: rng.chance(1, 4),
+        external: rng.chance(1, 3),
     }
 }
 
@@ -331,6 +337,10 @@ struct Builder<'a> {
     sw: &'a Swarm,
     sched: &'a mut Rng,
     folder_present: bool,
+    folder_b_present: bool,
+    deleted: BTreeMap<String, String>,
+    /// states the second folder's files alternate between
+    b_variants: Vec<Files>,
 }
 
 impl Builder<'_> {
@@ -398,8 +408,62 @@ impl Builder<'_> {
             }
         }
         if self.sw.folder_events && self.sched.chance(1, 20) {
-            self.folder_present = !self.folder_present;
-            self.events.push(Ev::Folder { add: self.folder_present });
+            if !self.b_variants.is_empty() && self.sched.chance(1, 2) {
+                self.folder_b_present = !self.folder_b_present;
+                self.events.push(Ev::Folder { add: self.folder_b_present, b: true });
+            } else {
+                self.folder_present = !self.folder_present;
+                self.events.push(Ev::Folder { add: self.folder_present, b: false });
+            }
+        }
+        if self.sw.external && self.sched.chance(1, 15) {
+            // a module that is not open vanishes from disk
+            let cands: Vec<String> = self.disk.keys().filter(|p| !self.open.contains_key(*p) && !p.ends_with("main.oal")).cloned().collect();
+            if !cands.is_empty() {
+                let p = self.sched.pick(&cands).clone();
+                let t = self.disk.remove(&p).unwrap();
+                self.deleted.insert(p.clone(), t);
+                self.events.push(Ev::DiskDelete { path: p });
+            }
+        }
+        if !self.deleted.is_empty() && self.sched.chance(1, 5) {
+            let p = self.deleted.keys().next().unwrap().clone();
+            if !self.open.contains_key(&p) {
+                let t = self.deleted.remove(&p).unwrap();
+                self.disk.insert(p.clone(), t);
+                self.events.push(Ev::DiskRestore { path: p });
+            }
+        }
+        if !self.b_variants.is_empty() && self.sched.chance(1, 8) {
+            // the second folder's program moves to another of its states
+            let k = self.sched.below(self.b_variants.len());
+            let want = self.b_variants[k].clone();
+            for (p, text) in want {
+                if self.full() {
+                    break;
+                }
+                if self.effective(&p) == Some(&text) {
+                    continue;
+                }
+                if !self.open.contains_key(&p) {
+                    let Some(cur) = self.disk.get(&p).cloned() else { continue };
+                    self.open.insert(p.clone(), cur.clone());
+                    self.events.push(Ev::Open { path: p.clone(), text: cur });
+                }
+                let cur = self.open[&p].clone();
+                let mut t = cur.clone();
+                for changes in make_edits(&cur, &text, self.sw, self.sched) {
+                    for c in &changes {
+                        position::apply_change(&mut t, c.range, &c.text);
+                    }
+                    self.events.push(Ev::Change { path: p.clone(), changes });
+                }
+                self.open.insert(p.clone(), t);
+                if self.sched.chance(1, 3) {
+                    self.open.remove(&p);
+                    self.events.push(Ev::Close { path: p.clone() });
+                }
+            }
         }
     }
 }
@@ -425,7 +489,9 @@ pub fn plan(seed: u64, prop: &str, run: u64, sem: Sem) -> Plan {
     let mut env = Rng::stream(seed, prop, run, "env");
     let mut sw = swarm(&mut sched);
     if semantic {
-        // Semantic oracles need the history to arrive at accepted generator programs.
+        // Semantic oracles need the history to arrive at accepted generator programs,
+        // and run in single-folder workspaces ("all modules of the folder").
+        sw.second_folder = false;
         sw.folder_events = false;
         sw.rename_loops = false;
         sw.max_events = 60;
@@ -512,6 +578,29 @@ pub fn plan(seed: u64, prop: &str, run: u64, sem: Sem) -> Plan {
             disk.entry(p.clone()).or_default();
         }
     }
+    // the second folder: a small program of its own under fb/, alternating between an
+    // accepted and an erroneous state
+    let mut b_variants: Vec<Files> = Vec::new();
+    if sw.second_folder {
+        let cfg_b = GenCfg {
+            max_modules: 2,
+            min_decls: 1,
+            max_decls: 3,
+            max_depth: 2,
+            examples_bias: 1,
+            shadow_bias: 3,
+            res_range: (1, 2),
+        };
+        let ast_b = gen::generate(&mut wl, &cfg_b);
+        let lb = layout(&mut wl, &sw);
+        let good: Files = gen::render(&ast_b, &lb).into_iter().map(|m| (format!("fb/{}", m.path), m.text)).collect();
+        let (_, bad) = inject_error(&good.iter().map(|(p, t)| (p[3..].to_string(), t.clone())).collect(), &mut wl);
+        let bad: Files = bad.into_iter().map(|(p, t)| (format!("fb/{p}"), t)).collect();
+        for (p, t) in good.iter() {
+            disk.insert(p.clone(), t.clone());
+        }
+        b_variants = vec![good, bad];
+    }
     let mut b = Builder {
         events: Vec::new(),
         disk: disk.clone(),
@@ -519,6 +608,9 @@ pub fn plan(seed: u64, prop: &str, run: u64, sem: Sem) -> Plan {
         sw: &sw,
         sched: &mut sched,
         folder_present: true,
+        folder_b_present: sw.second_folder,
+        deleted: BTreeMap::new(),
+        b_variants,
     };
     let mut reached = BTreeMap::new();
     for (ti, tgt) in targets.iter().enumerate() {
@@ -602,7 +694,21 @@ pub fn plan(seed: u64, prop: &str, run: u64, sem: Sem) -> Plan {
         }
     }
     if !b.folder_present {
-        b.events.push(Ev::Folder { add: true });
+        b.events.push(Ev::Folder { add: true, b: false });
+    }
+    if sw.second_folder && !b.folder_b_present {
+        b.events.push(Ev::Folder { add: true, b: true });
+    }
+    if !b.deleted.is_empty() || b.events.iter().rev().take(6).any(|e| matches!(e, Ev::DiskDelete { .. } | Ev::DiskRestore { .. })) {
+        // everything comes back, and one more notification lets the server notice
+        for (p, _) in std::mem::take(&mut b.deleted) {
+            b.events.push(Ev::DiskRestore { path: p });
+        }
+        let closed: Vec<String> = b.disk.keys().filter(|p| !b.open.contains_key(*p)).cloned().collect();
+        if let Some(p) = closed.first() {
+            b.events.push(Ev::Open { path: p.clone(), text: b.disk[p].clone() });
+            b.events.push(Ev::Close { path: p.clone() });
+        }
     }
     b.events.push(Ev::Checkpoint);
     let events = b.events;
@@ -613,6 +719,7 @@ pub fn plan(seed: u64, prop: &str, run: u64, sem: Sem) -> Plan {
             hash_seed: env.next_u64(),
             events,
             sem: sem_targets,
+            folder_b: sw.second_folder,
         },
         programs,
         targets,
